@@ -102,8 +102,8 @@ class BaseWorker(object, metaclass=abc.ABCMeta):
         cost_per_time=0.0,
         solo_working=False,
         workamount_skill_mean_map={},
-        workamount_skill_sd_map={},
-        facility_skill_map={},
+        workamount_skill_sd_map=None,
+        facility_skill_map=None,
         absence_time_list=None,
         # Basic variables
         state=BaseWorkerState.FREE,
@@ -112,8 +112,8 @@ class BaseWorker(object, metaclass=abc.ABCMeta):
         assigned_task_list=None,
         assigned_task_id_record=None,
         # Advanced parameters for customized simulation
-        quality_skill_mean_map={},
-        quality_skill_sd_map={},
+        quality_skill_mean_map=None,
+        quality_skill_sd_map=None,
     ):
         """init."""
         # ----
